@@ -11,6 +11,9 @@ def _stamp(particles, valid_gids):
         ids = np.arange(k, k + n, dtype=np.int64)
         k += n
         pa.add_property('ident', type='long', data=ids if n else None)
+        # a strided property that belongs to the particle (like a reference configuration or a stress tensor)
+        pa.add_property('trip', type='double', stride=3,
+                        data=(np.repeat(ids, 3).astype(float) + np.tile([0.0, 0.25, 0.5], n)) if n else None)
         if valid_gids == 2 and n:
             # user-assigned gids in an order of their own for most particles, the default (invalid) gid for the others
             g = pa.get('gid', only_real_particles=False)
